@@ -344,7 +344,7 @@ pub fn run_isolated(prop: &'static str, seed: u64, total: u64, maxops: usize, ex
 
 pub fn run(ctx: &mut Ctx) {
     ctx.rule("generated: sequences of 1-40 C API calls over a pool of 8 value handles and 3 filter handles: every constructor, predicate and getter, list push/get/set/remove/len, dict insert/get/remove/keys/len, grid from rows(/meta)/len/row-at, datetime getters, to/from Zinc and JSON, filter parse/match, last_error_message, destroy; arguments valid, wrong-kind, null, out-of-range (len, len+1, usize::MAX), unknown unit/zone, invalid text, non-UTF-8; oracle after every call: the result equals the same operation on plain Rust values (model), a failure gives the documented sentinel and exactly one retrievable error message, and every pooled handle still equals its model value; executed in child processes (an abort is attributed to the sequence in flight, confirmed alone and shrunk by deleting calls); non-trivial: a container mutation followed by a read of a container and at least one failing call; distinct by sequence");
-    ctx.assume("calls whose container and entry/result handle are the same handle are skipped (aliased &mut); make_tz_datetime may read its fields as UTC or as the zone's wall clock; a rows list mixing dicts and non-dicts may be rejected or reduced to its dicts; Date years 0-9999");
+    ctx.assume("calls whose container and entry/result handle are the same handle are skipped (aliased &mut); make_tz_datetime may read its fields as UTC or as the zone's wall clock; a rows list mixing dicts and non-dicts may be rejected or reduced to its dicts; Date years mostly 0-9999, also negative and five-digit ones");
     let total = ctx.tier.pick(48_000, 960_000);
     let iso = run_isolated("C17", ctx.seed, total, 40, None, vec![]);
     ctx.rec.merge(iso.rec);
